@@ -84,6 +84,10 @@ func c18Usage(used uint64) float64 {
 type c18Tick struct {
 	Master   int   `json:"master_level"`
 	Replicas []int `json:"replica_levels"`
+	// OtherManagerUndid: before this iteration another mysync process was manager for a while and made
+	// the opposite change (master read-only <-> writable, low_space written accordingly); this process
+	// stayed alive and is manager again
+	OtherManagerUndid bool `json:"another_manager_made_the_opposite_change_before,omitempty"`
 }
 
 type c18Case struct {
@@ -203,6 +207,15 @@ func c18Run(r *vt.Run, c c18Case) {
 			}
 		})
 		for ti, tk := range c.Ticks {
+			if tk.OtherManagerUndid {
+				if m.ReadOnly {
+					m.ReadOnly, m.SuperRO = false, false
+					w.ZK.Put(vns+"/low_space", "false")
+				} else {
+					m.ReadOnly, m.SuperRO = true, !c.Keep
+					w.ZK.Put(vns+"/low_space", "true")
+				}
+			}
 			// health records as the hosts' own health checks would have published them
 			put := func(host string, st *nodestate.NodeState) {
 				st.CheckBy, st.PingOk = host, true
@@ -359,7 +372,7 @@ func checkC18(r *vt.Run) {
 							if r.Expired() {
 								return
 							}
-							c := c18Case{ti, ro, keep, wc, []c18Tick{{ml, rs}}}
+							c := c18Case{ti, ro, keep, wc, []c18Tick{{Master: ml, Replicas: rs}}}
 							if idx%5000 == 17 {
 								r.Sample(c)
 							}
@@ -374,7 +387,12 @@ func checkC18(r *vt.Run) {
 							if !r.Mine(idx) {
 								continue
 							}
-							c := c18Case{ti, ro, keep, wc, []c18Tick{{l1, nil}, {l2, nil}}}
+							c := c18Case{ti, ro, keep, wc, []c18Tick{{Master: l1}, {Master: l2}}}
+							r.Crumb(c)
+							c18Run(r, c)
+							// ... and with a tenure of another manager, which made the opposite change, in between:
+							// the same change has to be made - and flagged - again
+							c = c18Case{ti, ro, keep, wc, []c18Tick{{Master: l1}, {Master: l1, OtherManagerUndid: true}, {Master: l2}}}
 							r.Crumb(c)
 							c18Run(r, c)
 						}
